@@ -16,11 +16,16 @@ Correspondence (local steps, model evaluated inside Coq):
   * index sets from the implementation's reported p / t matrices, alpha parsing and
     only_larger flag: pairwise_indices(_alt), pairwise_means_indices(_alt);
   * the legacy path (pairwise_significance_tests[c].t_stats) from the displayed proportions,
-    columns_base and columns_squared_base.
-Oracles on the implementation alone: antisymmetry t(a,b) = -t(b,a), symmetry of p, the column
-itself never reported, secondary sets contain the primary, equivariance of the sets under
-column order / hide transforms and under removal of the inserted columns, legacy t == t of the
-matrix path (property: both use the effective base).
+    columns_margin (weighted), columns_base and columns_squared_base.
+Oracles on the implementation alone: antisymmetry t(a,b) = -t(b,a), symmetry of p, t = 0 (p = 1)
+for a column against itself, the column itself never reported (pairwise_indices(_alt),
+pairwise_means_indices(_alt) and the legacy summary_pairwise_indices /
+columns_scale_mean_pairwise_indices(_alt)), secondary sets contain the primary, equivariance of
+the sets under column order / hide transforms and under removal of the inserted columns,
+legacy t == t of the matrix path (property: both use the effective base).
+The p-value the overlap path reports for a column against itself (0.0, pinned by the library's
+integration tests) is modelled (ov_p_self) but is outside the property text (it states t = 0 for
+a column against itself and that the column is never listed; both are checked).
 """
 import copy
 import json
@@ -132,6 +137,13 @@ def _sets(arr):
     return [[sorted(int(x) for x in cell) for cell in row] for row in a]
 
 
+def _flat_sets(seq):
+    """sequence of tuples (one per display column) -> list of sorted int lists; None stays None"""
+    if seq is None:
+        return None
+    return [sorted(int(x) for x in cell) for cell in seq]
+
+
 def read_run(part, stream, want_inputs):
     out = {}
     g = impl.get
@@ -189,8 +201,13 @@ def impl_run(case):
     io["B"] = read_run(B, stream, False)
     if stream in ("cols", "mr_plain"):
         io["B"]["legacy_t"] = impl.guarded(lambda: [np.asarray(x.t_stats, dtype=float) for x in B.pairwise_significance_tests])
-        for n in ("column_proportions", "columns_base", "columns_squared_base"):
+        for n in ("column_proportions", "columns_base", "columns_margin", "columns_squared_base"):
             io["B"][n] = impl.get(B, n)
+    # legacy index outputs (one tuple of display positions per display column)
+    io["B"]["legacy_sets"] = {
+        n: impl.guarded(lambda n=n: _flat_sets(getattr(B, n)))
+        for n in ("summary_pairwise_indices", "columns_scale_mean_pairwise_indices",
+                  "columns_scale_mean_pairwise_indices_alt")}
     if case["col_kind"] == "cat" and io["dims"][3] > 0:
         gc = impl.guarded(lambda: impl.partition(strip_col_insertions(resp), pw_only(tr)))
         if gc[0] == "ok":
@@ -243,16 +260,21 @@ def build_terms(case, io):
              % (g_blocks(P), nterm, g_list([g_Z(s) for s in sels])))
         jobs.append(("matrix", t, {"sels": sels}))
         # legacy path on the displayed arrays of run B
-        if all(_ok(B.get(n)) for n in ("column_proportions", "columns_base", "columns_squared_base", "legacy_t")):
+        if all(_ok(B.get(n)) for n in ("column_proportions", "columns_base", "columns_margin",
+                                       "columns_squared_base", "legacy_t")):
             props = np.asarray(B["column_proportions"][1], dtype=float)
             ub = np.asarray(B["columns_base"][1], dtype=float)
+            wm = np.asarray(B["columns_margin"][1], dtype=float)
             if ub.ndim == 1:
                 ub = np.broadcast_to(ub, props.shape)
+            if wm.ndim == 1:
+                wm = np.broadcast_to(wm, props.shape)
             sqv = B["columns_squared_base"][1]
             g_sq = "None" if sqv is None else "(Some %s)" % g_vec(list(np.asarray(sqv, dtype=float)))
-            if props.size:
-                t = ("flat_map (fun c => r_mat (legacy_t %s %s %s c)) (seq 0 %s)"
-                     % (g_mat(props.tolist()), g_mat(ub.tolist()), g_sq, g_nat(props.shape[1])))
+            if props.size and ub.shape == props.shape and wm.shape == props.shape:
+                t = ("flat_map (fun c => r_mat (legacy_t %s %s %s %s c)) (seq 0 %s)"
+                     % (g_mat(props.tolist()), g_mat(wm.tolist()), g_mat(ub.tolist()), g_sq,
+                        g_nat(props.shape[1])))
                 jobs.append(("legacy", t, {"n": props.shape[1]}))
     elif stream == "means":
         if not all(_ok(A.get(n)) for n in ("means", "stddev", "unweighted_counts")):
@@ -282,17 +304,18 @@ def build_terms(case, io):
         jobs.append(("overlap", t, {"sels": sels}))
     # index sets from the reported p / t of run B
     if all(_ok(x) for x in B["t"]) and all(_ok(x) for x in B["p"]):
-        pts = g_list(["(%s, %s)" % (g_mat(np.asarray(p[1], dtype=float).tolist()),
-                                    g_mat(np.asarray(tt[1], dtype=float).tolist()))
-                      for p, tt in zip(B["p"], B["t"])])
+        # (own display position, (p matrix, t matrix)) of every displayed column
+        pts = g_list(["(%s, (%s, %s))" % (g_nat(c), g_mat(np.asarray(p[1], dtype=float).tolist()),
+                                          g_mat(np.asarray(tt[1], dtype=float).tolist()))
+                      for c, (p, tt) in enumerate(zip(B["p"], B["t"]))])
     else:
         pts = "[]"
     ol = "(only_larger_parse %s)" % case["olval"]
     t = ("match alpha_parse %s with "
          "| A_ok a alt => [0] ++ r_xq (Fin a) ++ r_opt (fun q => r_xq (Fin q)) alt ++ r_bool %s ++ "
-         "flat_map (fun PT => r_list r_nats (indices_col a %s (fst PT) (snd PT))) %s ++ "
+         "flat_map (fun PT => r_list r_nats (indices_col a %s (fst PT) (fst (snd PT)) (snd (snd PT)))) %s ++ "
          "match alt with None => [] | Some b => "
-         "flat_map (fun PT => r_list r_nats (indices_col b %s (fst PT) (snd PT))) %s end "
+         "flat_map (fun PT => r_list r_nats (indices_col b %s (fst PT) (fst (snd PT)) (snd (snd PT)))) %s end "
          "| A_type_error => [1] | A_value_error => [2] end" % (case["aval"], ol, ol, pts, ol, pts))
     jobs.append(("sets", t, {"have_pt": pts != "[]"}))
     return jobs
@@ -367,7 +390,9 @@ def cmp_display(io, R, c, mt_full, mdf_full, fails, what, diag_payload=None):
                                              "payload": [int(ro[i]), int(co[j])]}))
                 return n
             if diag_payload is not None and int(co[j]) == diag_payload:
-                ep = 0.0  # the overlap path reports p = 0 for a column against itself (model: ov_p_self)
+                # what the code does (model: ov_p_self): the overlap path reports p = 0.0 for a
+                # column against itself; outside the property text, see the assumptions
+                ep = 0.0
             else:
                 ep = expected_p(m, mdf[i][j])
             if not close_p(Pv[i, j], ep):
@@ -557,7 +582,12 @@ def _oracles(case, io, fails, rep):
                             fails.append(("self-t", {"row": i, "col": c, "t": a}, {"path": path}))
                             done = True
                             break
-                        if not (math.isnan(pa) or abs(pa - 1.0) <= 1e-9):
+                        if path == "overlap":
+                            # p(a, a) of the overlap path (0.0 by construction of the library,
+                            # pinned by its integration tests) is outside the property text
+                            if pa == 0.0:
+                                rep.dist("overlap_self_p_zero_cells(outside property)")
+                        elif not (math.isnan(pa) or abs(pa - 1.0) <= 1e-9):
                             fails.append(("self-pvalue", {"row": i, "display_col": c, "p": pa, "t": a}, {"path": path}))
                             done = True
                             break
@@ -614,27 +644,54 @@ def _oracles(case, io, fails, rep):
             fails.append(("equivariance", bad, {"path": path, "relation": name}))
         else:
             rep.dist("equivariance_checked:" + name)
-    # (5) property oracle for the legacy path: same t as the matrix path (effective base rule)
-    if stream in ("cols", "mr_plain") and _ok(B.get("legacy_t")) and all(_ok(x) for x in B.get("t", [])):
+    # (2b) the legacy index outputs never list the column itself either
+    for name, got in (B.get("legacy_sets") or {}).items():
+        if not _ok(got) or got[1] is None:
+            continue
+        for c, cell in enumerate(got[1]):
+            if c in cell:
+                fails.append(("self-in-indices", {"output": name, "display_col": c, "set": cell},
+                              {"path": "legacy", "output": name}))
+                break
+        else:
+            rep.dist("legacy_sets_self_checked:" + name)
+    # (5) property oracle for the legacy path: same t as the matrix path (effective base rule),
+    # every cell of every selected column.  A difference in payload row 0, or on rows that share
+    # their column bases, is reported first: the open finding covers only rows >= 1 of MR rows.
+    if stream in ("cols", "mr_plain") and _ok(B.get("legacy_t")) and all(_ok(x) for x in B.get("t", [])) \
+            and _ok(B.get("row_order")):
         L = B["legacy_t"][1]
+        ro = [int(x) for x in B["row_order"][1]]
+        worst = None          # (detail, payload row): a difference outside "payload row >= 1" wins
+        compared = 0
         for c, Tm in enumerate(B["t"]):
             if c >= len(L):
+                worst = ({"what": "fewer legacy tests than displayed columns", "n_tests": len(L)}, 0)
                 break
             Tm = np.asarray(Tm[1], dtype=float)
             Lc = np.asarray(L[c], dtype=float)
             if Lc.shape != Tm.shape:
+                worst = ({"what": "shape", "legacy": list(Lc.shape), "matrix_path": list(Tm.shape)}, 0)
                 break
             both = np.isfinite(Tm) & np.isfinite(Lc)
-            if both.any() and not np.allclose(Tm[both], Lc[both], rtol=1e-9, atol=1e-12):
-                ij = np.argwhere(both & ~np.isclose(Tm, Lc, rtol=1e-9, atol=1e-12))[0]
-                fails.append(("legacy-vs-property",
-                              {"display_col": c, "cell": [int(ij[0]), int(ij[1])],
-                               "legacy_t": float(Lc[ij[0], ij[1]]), "matrix_path_t": float(Tm[ij[0], ij[1]]),
-                               "columns_base": core.jsonable(B["columns_base"][1]) if _ok(B.get("columns_base")) else None,
-                               "columns_squared_base": core.jsonable(B["columns_squared_base"][1]) if _ok(B.get("columns_squared_base")) else None},
-                              {"squared_weights": bool(io.get("has_sq")), "path": "legacy"}))
+            compared += int(both.sum())
+            diff = both & ~np.isclose(Tm, Lc, rtol=1e-9, atol=1e-12)
+            for ij in np.argwhere(diff):
+                prow = ro[int(ij[0])] if int(ij[0]) < len(ro) else 0
+                if worst is None or (prow < 1 <= worst[1]):
+                    worst = ({"display_col": c, "cell": [int(ij[0]), int(ij[1])], "payload_row": prow,
+                              "legacy_t": float(Lc[ij[0], ij[1]]),
+                              "matrix_path_t": float(Tm[ij[0], ij[1]])}, prow)
+            if worst is not None and worst[1] < 1:
                 break
-        else:
+        if worst is not None:
+            d, prow = worst
+            for n in ("columns_base", "columns_margin", "columns_squared_base"):
+                d[n] = core.jsonable(B[n][1]) if _ok(B.get(n)) else None
+            fails.append(("legacy-vs-property", d,
+                          {"squared_weights": bool(io.get("has_sq")), "path": "legacy",
+                           "row_kind": case["row_kind"], "payload_row_ge_1": bool(prow >= 1)}))
+        elif compared:
             rep.dist("legacy_equals_matrix_path")
 
 
@@ -731,6 +788,15 @@ def run(tier, seed):
         "threshold decisions p < alpha are evaluated exactly on the reported float p (decisions within 1e-9 of "
         "alpha that disagree are skipped and counted)",
         "float64 vs exact rationals: relative tolerance 1e-9 on t*|t|",
+        "the p-value reported for a column against ITSELF on the overlap path (pairwise_significance_p_vals(a)[:, a] "
+        "== 0.0, pinned by the library's tests/integration/test_pairwise_significance.py) is modelled as the code "
+        "computes it (ov_p_self) but treated as outside the property: the property text states t = 0 for a column "
+        "against itself and that the column is never listed - both are checked on every path - and says nothing "
+        "explicit about p(a, a); occurrences are counted in distribution['overlap_self_p_zero_cells(outside property)']",
+        "legacy path: the model takes columns_margin (broadcast to a matrix), columns_base and the 1-D "
+        "columns_squared_base as reported by the slice; the legacy index outputs (summary_pairwise_indices, "
+        "columns_scale_mean_pairwise_indices(_alt)) are only checked for never listing the column itself - their "
+        "statistics belong to other properties",
     ]
     return rep.finish("proof", ob, trusted_base=core.TRUSTED_BASE_COMMON + [
         "Model/Pairwise.v is hand-written; tied to matrix/measure.py, cubepart.py and "
